@@ -47,7 +47,7 @@ theorem realignRow_bit (shift : Nat) (h0 : 0 < shift) (hs : shift < 32) (row : L
   cases row with
   | nil => exact absurd rfl hne
   | cons w0 rest =>
-    unfold WMat.realignRow
+    show bitAt (WMat.realignLoop shift rest (rev32 w0 >>> (32 - shift))) g = _
     rw [realignLoop_eq shift hs, List.map_cons]
     exact bitAt_shiftLoop (32 - shift) (by omega) (by omega) (rest.map rev32) (rev32 w0) (rev32_lt _)
       (by intro w hw; obtain ⟨v, _, rfl⟩ := List.mem_map.mp hw; exact rev32_lt _) g
@@ -57,7 +57,7 @@ theorem realignRow_length (shift : Nat) (hs : shift < 32) (row : List Nat) :
   cases row with
   | nil => rfl
   | cons w0 rest =>
-    unfold WMat.realignRow
+    show (WMat.realignLoop shift rest (rev32 w0 >>> (32 - shift))).length = _
     rw [realignLoop_eq shift hs, shiftLoop_length]; simp
 
 theorem realignRow_lt (shift : Nat) (hs : shift < 32) (row : List Nat) :
@@ -65,7 +65,7 @@ theorem realignRow_lt (shift : Nat) (hs : shift < 32) (row : List Nat) :
   cases row with
   | nil => intro w hw; simp [WMat.realignRow] at hw
   | cons w0 rest =>
-    unfold WMat.realignRow
+    show ∀ w ∈ WMat.realignLoop shift rest (rev32 w0 >>> (32 - shift)), w < W32
     rw [realignLoop_eq shift hs]
     exact shiftLoop_lt _ _ _ (shr_lt_W32 (rev32_lt _) _)
       (by intro w hw; obtain ⟨v, _, rfl⟩ := List.mem_map.mp hw; exact rev32_lt _)
@@ -100,11 +100,12 @@ theorem rotate180_refines (m : WMat) (h : InvM m) :
   have hspec : (absM m).rotate180 = SMat.ofFn m.width m.height
       (fun x y => mbit m (m.width - 1 - x) (m.height - 1 - y)) := by
     rw [SMat.rotate180_eq _ (absM_WF m)]
-    apply SMat.ext_get _ _ (SMat.ofFn_WF _ _ _) (SMat.ofFn_WF _ _ _) rfl rfl
-    intro x y hx hy
-    have hx' : x < m.width := hx
-    have hy' : y < m.height := hy
-    rw [SMat.get_ofFn _ _ _ _ _ hx' hy', SMat.get_ofFn _ _ _ _ _ hx' hy']
+    show SMat.ofFn m.width m.height
+      (fun x y => (absM m).get (m.width - 1 - x) (m.height - 1 - y)) = _
+    congr 1
+    funext x y
+    have := h.1
+    have := h.2.1
     exact absM_get m _ _ (by omega) (by omega)
   rw [hspec]
   -- row arithmetic
@@ -160,7 +161,7 @@ theorem rotate180_refines (m : WMat) (h : InvM m) :
     apply cellwise m h _ _ (by simp)
       (by intro w hw; obtain ⟨v, _, rfl⟩ := List.mem_map.mp hw; exact rev32_lt _)
     intro x y hx hy
-    rw [← List.map_reverse]
+    rw [List.map_reverse]
     have hg : y * m.rowSize * 32 + x < m.words.length * 32 := by
       have := hrowsum y hy; omega
     rw [bitAt_reverse_rev32 _ _ hg, if_pos (by omega)]
